@@ -7,6 +7,7 @@ import (
 	"errors"
 	"fmt"
 	"io"
+	"reflect"
 	"strings"
 
 	"github.com/protolambda/zrnt/eth2/beacon/common"
@@ -504,6 +505,11 @@ func (x *exec) unit(u Unit) {
 			return
 		}
 	}
+	// 4b. the struct form's own conversion to a tree view, where the type has one
+	x.structToView(u, o, b, root)
+	if x.stop {
+		return
+	}
 	// 5. text forms
 	x.textForms(u, e, o, b)
 	if x.stop {
@@ -512,6 +518,71 @@ func (x *exec) unit(u Unit) {
 	// 6. damaged records
 	for k := 0; k < 4 && !x.stop; k++ {
 		x.damaged(u, e, t, b, frng)
+	}
+}
+
+var (
+	specPtrType = reflect.TypeOf((*common.Spec)(nil))
+	uint64Type  = reflect.TypeOf(uint64(0))
+	errorType   = reflect.TypeOf((*error)(nil)).Elem()
+)
+
+// structToView: value.View(...) must be a tree with the root (and bytes) of the value.
+func (x *exec) structToView(u Unit, o lib, b []byte, root chunk) {
+	m := reflect.ValueOf(o.v).MethodByName("View")
+	if !m.IsValid() {
+		return
+	}
+	mt := m.Type()
+	var args []reflect.Value
+	for i := 0; i < mt.NumIn(); i++ {
+		switch mt.In(i) {
+		case specPtrType:
+			args = append(args, reflect.ValueOf(x.spec))
+		case uint64Type: // Balances.View(limit)
+			args = append(args, reflect.ValueOf(uint64(x.spec.VALIDATOR_REGISTRY_LIMIT)))
+		default:
+			x.res.Stat("view_conversions_not_callable/"+u.Type, 1)
+			return
+		}
+	}
+	var outs []reflect.Value
+	if p := guard(func() { outs = m.Call(args) }); p != "" {
+		x.viol("C05", "struct-to-view-panics/"+u.Type, fmt.Sprintf("%s (%s): View() of a valid value panics: %s (value %s)", u.Type, x.presetName(), p, hex8(b)))
+		return
+	}
+	if len(outs) == 0 {
+		return
+	}
+	if len(outs) > 1 && outs[len(outs)-1].Type().Implements(errorType) && !outs[len(outs)-1].IsNil() {
+		// an error is not a wrong root: no verdict (Transaction.View always answers "view is not a union")
+		x.res.Stat("view_conversions_refused/"+u.Type, 1)
+		return
+	}
+	v, ok := outs[0].Interface().(interface {
+		HashTreeRoot(h tree.HashFn) tree.Root
+	})
+	if !ok || (outs[0].Kind() == reflect.Ptr && outs[0].IsNil()) {
+		x.res.Stat("view_conversions_without_root/"+u.Type, 1)
+		return
+	}
+	x.res.Stat("struct_to_view_roots", 1)
+	var r tree.Root
+	if p := guard(func() { r = v.HashTreeRoot(tree.GetHashFn()) }); p != "" {
+		x.viol("C05", "struct-to-view-panics/"+u.Type, fmt.Sprintf("%s: HashTreeRoot of View() panics: %s", u.Type, p))
+		return
+	}
+	if r != common.Root(root) {
+		x.viol("C05", "struct-to-view-root/"+u.Type, fmt.Sprintf("%s (%s): value.View() has root %s, the value has root %x (value %s)", u.Type, x.presetName(), r, root, hex8(b)))
+		return
+	}
+	if sv, ok := outs[0].Interface().(interface {
+		Serialize(w *codec.EncodingWriter) error
+	}); ok {
+		var vb bytes.Buffer
+		if err := sv.Serialize(codec.NewEncodingWriter(&vb)); err != nil || !bytes.Equal(vb.Bytes(), b) {
+			x.viol("C04", "struct-to-view-bytes/"+u.Type, fmt.Sprintf("%s (%s): value.View() serializes to %d bytes (err %v), the value to %d", u.Type, x.presetName(), vb.Len(), err, len(b)))
+		}
 	}
 }
 
